@@ -61,6 +61,12 @@ class FuncInfo:
         return out
 
     @property
+    def pos_params(self):
+        """Names of the positional parameters (positional-only ones included), in order."""
+        a = self.node.args
+        return [x.arg for x in a.posonlyargs + a.args]
+
+    @property
     def params(self):
         a = self.node.args
         names = [x.arg for x in a.posonlyargs + a.args]
